@@ -85,8 +85,10 @@ def cases(draw):
       names = st.one_of(names, st.sampled_from(['servers.db.db.queries', 'web.web', 'cpu11.load', 'x.prod.prod', 'b.count', 'a.b',
                                                  'db.web', 'db.db', 'x22', 'a.', 'carbon.cpu']))
     pts = []
+    # the lists judge the name as it was received: tagged, with unsorted tags, or with something that only looks like tags
+    tails = st.sampled_from(['', '', '', '', '', ';env=prod', ';b=2;a=1', ';cpu=1;a=web', ';x', ';=v', ';a=', ';;'])
     for _ in range(draw(st.integers(1, 10))):
-      pts.append([draw(names), draw(ts_strategy()), draw(value_strategy())])
+      pts.append([draw(names) + draw(tails), draw(ts_strategy()), draw(value_strategy())])
     if gens and draw(st.booleans()):
       # the same series keep arriving after the lists changed
       pts = pts + [[p[0], draw(ts_strategy()), draw(value_strategy())] for p in gens[-1]['points'][:6]]
